@@ -11,6 +11,8 @@ import (
 	"github.com/nyaruka/goflow/assets/static"
 	"github.com/nyaruka/goflow/contactql"
 	"github.com/nyaruka/goflow/envs"
+	"github.com/nyaruka/goflow/excellent"
+	"github.com/nyaruka/goflow/excellent/types"
 	"github.com/nyaruka/goflow/flows"
 )
 
@@ -115,7 +117,7 @@ func encNodeOrNil(n contactql.QueryNode) string {
 // ---- generators ---------------------------------------------------------------------------
 
 var cqlValues = []string{"1 2", "10=20", "3\"4", "5(6", "7,5", "1-2", "12:30", "1.2.3", "1.", ".5", "1e5", "٣", "1.٣", "bob", "Bob Smith", "", "10", "3.5", "007", "M", "x y", "OR", "and", "name = \"x\"", "a\"b", "a\\", "\\", "a\\\\", "\"", ") OR (id = 1", "\" OR \"\" = \"",
-	"é中", "tel:+123", "+12065551212", "1-2", "a.b", "it's", "x@y.com", "2020-01-01", "\n", "\t x", "a\\\"", "\\\" OR name = \\\""}
+	"é中", "𝟏𝟐𝟑", "𝟏.𝟓", "𐒠𐒡", "１２", "१२.३", "1𝟐", "tel:+123", "+12065551212", "1-2", "a.b", "it's", "x@y.com", "2020-01-01", "\n", "\t x", "a\\\"", "\\\" OR name = \\\""}
 
 func genCQLValue(r *Rng) string {
 	if r.Chance(55) {
@@ -344,13 +346,40 @@ func runC14(c *Ctx) {
 		{`gender={V} nick_name={W} name = "x"`, func(v, w string) string {
 			return "and[" + cnd("field", "gender", "=", v) + " " + cnd("field", "nick_name", "=", w) + " " + cnd("attr", "name", "=", "x") + "]"
 		}},
+		// the same value in several places
+		{`gender = "F" AND (name = {V} OR nick_name = {V})`, func(v, w string) string {
+			return "and[" + cnd("field", "gender", "=", "F") + " or[" + cnd("attr", "name", "=", v) + " " + cnd("field", "nick_name", "=", v) + "]]"
+		}},
+		{`name = {W} OR nick_name = {V} OR gender = {W} OR nick_name != {V}`, func(v, w string) string {
+			return "or[" + cnd("attr", "name", "=", w) + " " + cnd("field", "nick_name", "=", v) + " " + cnd("field", "gender", "=", w) + " " + cnd("field", "nick_name", "!=", v) + "]"
+		}},
 	}
+	evaluator := excellent.NewEvaluator()
 	n = c.N(8000, 400000)
 	for i := 0; i < n; i++ {
 		v, w := genCQLValue(r), genCQLValue(r)
 		t := tpls[r.Intn(len(tpls))]
 		ev, ew := flows.ContactQueryEscaping(v), flows.ContactQueryEscaping(w)
 		text := strings.ReplaceAll(strings.ReplaceAll(t.text, "{V}", ev), "{W}", ew)
+		// the substitution as the engine does it: the template evaluated with the escaping, values referenced as identifiers or expressions
+		{
+			refV, refW := Pick(r, []string{"@v", "@v", "@(v)", "@vals.v"}), Pick(r, []string{"@w", "@(w)", "@vals.w"})
+			tt := strings.ReplaceAll(strings.ReplaceAll(t.text, "{V}", refV), "{W}", refW)
+			vals := types.NewXObject(map[string]types.XValue{"v": types.NewXText(v), "w": types.NewXText(w)})
+			ctx := types.NewXObject(map[string]types.XValue{"v": types.NewXText(v), "w": types.NewXText(w), "vals": vals})
+			var evaluated string
+			var eerr error
+			desc := map[string]any{"template": tt, "v": v, "w": w}
+			if !c.Guard("M3-template", "panic:template", desc, func() {
+				evaluated, _, eerr = evaluator.Template(envs.NewBuilder().Build(), ctx, tt, flows.ContactQueryEscaping)
+			}) {
+				c.Count("check:M3-template")
+				if eerr != nil || evaluated != text {
+					desc["evaluated"], desc["expected"] = evaluated, text
+					c.Fail("monitor", "M3-template", "template-escaping-differs", "evaluating a query template with the contact query escaping did not escape every substituted value", desc)
+				}
+			}
+		}
 		c.Model("qlex", "qlex "+hx(text), cqlLex(text), text)
 		for _, e := range envsBoth {
 			q, err, p := parse(e.env, text)
